@@ -7,9 +7,10 @@ MkFam(ops, leaves, samples, maxops, maxleaves, maxunused, wide) ==
     [ops |-> ops, leaves |-> leaves, samples |-> samples, maxops |-> maxops, maxleaves |-> maxleaves, maxunused |-> maxunused, wide |-> wide]
 \* family 1 of every run: no programs, only the leaf/sample tables of all samples
 TableFam == MkFam({}, {}, AllSamples, 0, 0, 0, 0)
-ElemOps == ArithOps \cup {"divmod"}
+ElemOps == ArithOps \cup FloatBinOps \cup {"divmod"}
 CompareOps == CmpOps \cup LogicOps \cup BitOps \cup {"logical_not", "invert"}
-UnOps == UnaryOps
+UnOps == UnaryOps \ TransOps
+TrOps == TransOps
 RedOps == ReduceOps
 IndexOps == {"getitem", "getitem_node"}
 ShapeOps == {"reshape", "ravel", "transpose", "swapaxes", "moveaxis", "expand_dims", "broadcast_to", "repeat"}
@@ -18,7 +19,7 @@ PickOps == {"take", "choose", "compress"}
 ProdOps == {"dot", "matmul", "vdot", "cross", "einsum"}
 LinOps == {"trace", "diagonal", "det", "inv", "norm"}
 LookupOps == {"searchsorted", "interp"}
-AllOps == ElemOps \cup CompareOps \cup UnOps \cup RedOps \cup IndexOps \cup ShapeOps \cup JoinOps \cup PickOps \cup ProdOps \cup LinOps \cup LookupOps
+AllOps == ElemOps \cup CompareOps \cup UnOps \cup TrOps \cup RedOps \cup IndexOps \cup ShapeOps \cup JoinOps \cup PickOps \cup ProdOps \cup LinOps \cup LookupOps
 AllLeaves == {GlobalLeaves[i].name : i \in 1..Len(GlobalLeaves)} \cup {"X", "EX", "BX", "Y", "EY"}
 \* small default: promotion/broadcasting of every binary ufunc over one leaf of each kind, on a line sample and the product sample
 DefaultFamilies == << TableFam,
